@@ -235,6 +235,12 @@ def run(ctx):
                                   replay={"members": [(n, kk, d.decode("latin-1")) for n, kk, d in members], "path": "gm", "gplus": "$", "protocol": "gopherp"})
             model_lines.append("zipindex\t" + (" ".join(mm) or "~") + "\t" + enc_list(qs))
             checks.append(("zipindex", {"members": members, "queries": qs}, impl))
+            # the same answers read off the tree the index stands for (Model/ZipTree.toTree; theorem archive_answers_as_extracted_tree)
+            model_lines.append("ziptree\t" + (" ".join(mm) or "~") + "\t" + enc_list(qs))
+            checks.append(("ziptree", {"members": members, "queries": qs}, impl))
+            for osel in ("/XTREEX.zip", "/XTREEX.zip/", "/XTREEX.zip/a", "/XTREEX.zipper/a.txt", "/XTREEX.zi", "/outside/data.txt", "", "/", "XTREEX.zip/a"):
+                model_lines.append("inarchive\t" + enc_str("/XTREEX.zip") + "\t" + enc_str(osel))
+                checks.append(("inarchive", osel, vfs._inarchive(osel) if hasattr(vfs, "_inarchive") else None))
             res.evaluations += len(qs)
             implicit = any("/" in n.rstrip("/") and (n.rsplit("/", 1)[0] + "/") not in [m[0] for m in members] for n, k, d in members)
             if any(k == "L" for n, k, d in members) and implicit:
@@ -281,20 +287,26 @@ def run(ctx):
         elif kind == "pathsplit":
             a, b = o.split("\t")
             model = (dec_str(a), dec_str(b))
+        elif kind == "inarchive":
+            model = (o == "T")
+        elif o == "CRASH":
+            model = "CRASH"
         else:
-            if o == "CRASH":
-                model = "CRASH"
-            else:
-                model = []
-                for item in o.split(" "):
-                    k, l = item.split("|")
-                    if k.startswith("f:"):
-                        k = "f:" + dec_str(k[2:])
-                    model.append((k, None if l == "!" else sorted(dec_list(l))))
+            # zipindex / ziptree.  ziptree skips queries with an empty or '.' component ('~': the implementation's answer
+            # stands); a file's data in the tree is the member's original name (the data function of the run is the identity)
+            model = []
+            for item, i_ in zip(o.split(" "), impl):
+                if item == "~":
+                    model.append(i_)
+                    continue
+                k, l = item.split("|")
+                if k.startswith("f:"):
+                    k = "f:" + dec_str(k[2:])
+                model.append((k, None if l == "!" else sorted(dec_list(l))))
         if model != impl:
-            if kind == "zipindex" and model != "CRASH":
+            if kind in ("zipindex", "ziptree") and model != "CRASH":
                 diffs = [(q, m, i) for q, m, i in zip(inp["queries"], model, impl) if m != i]
-                res.disagree("C16.zipindex", {"members": inp["members"], "first_diffs(query, model, impl)": diffs[:4]}, "see input", "see input")
+                res.disagree("C16." + kind, {"members": inp["members"], "first_diffs(query, model, impl)": diffs[:4]}, "see input", "see input")
             else:
                 res.disagree("C16." + kind, inp, model, impl)
     res.sample({"archive_members": [c for c in checks if c[0] == "zipindex"][0][1]["members"]})
